@@ -56,6 +56,7 @@ class P(Prop):
                     i2["dt"] = [Fraction(rng.randint(1, 40) * 15) for _ in range(i2["n"])]
                     runs.append(i2)
                 out.append({"stream": stream, "plant": c["plant"], "runs": runs,
+                            "specs": [rng.choice(["IMO", "IMO", "FUEL_EU_MARITIME"]) for _ in runs],     # an IMO report, then a FuelEU one ...
                             "queries": [rng.sample(["result", "total", "fractions", "emissions"], rng.randint(0, 3)) for _ in runs]})
             elif stream == "mechanical":
                 c = sysrun.gen_mechanical_case(rng)
@@ -65,6 +66,7 @@ class P(Prop):
                     i2["dt"] = [Fraction(rng.randint(1, 40) * 15) for _ in range(i2["n"])]
                     runs.append(i2)
                 out.append({"stream": stream, "plant": c["plant"], "runs": runs,
+                            "specs": [rng.choice(["IMO", "IMO", "FUEL_EU_MARITIME"]) for _ in runs],
                             "queries": [rng.sample(["result", "total", "emissions"], rng.randint(0, 2)) for _ in runs]})
             else:
                 nswb = rng.choice([1, 2])
@@ -126,13 +128,15 @@ class P(Prop):
                         sysm.do_power_balance_calculation()
                         outs = [[float(x) for x in np.atleast_1d(o.power_output if pg.kind_of(d["cls"]) == "Source" else o.power_input)]
                                 for d, o in zip(case["plant"]["comps"], objs)]
-                        res = sysm.get_fuel_energy_consumption_running_time()
+                        from feems.fuel import FuelSpecifiedBy
+                        spec = (case.get("specs") or ["IMO"] * len(case["runs"]))[k]
+                        res = sysm.get_fuel_energy_consumption_running_time(fuel_specified_by=FuelSpecifiedBy[spec])
                         s1 = sysrun.snap(res)
                         self.do_queries(res, case["queries"][k])
                         s2 = sysrun.snap(res)
                         sysm.do_power_balance_calculation()
-                        s3 = sysrun.snap(sysm.get_fuel_energy_consumption_running_time())
-                        _, _, fres = sysrun.run_electric(case["plant"], inp)
+                        s3 = sysrun.snap(sysm.get_fuel_energy_consumption_running_time(fuel_specified_by=FuelSpecifiedBy[spec]))
+                        _, _, fres = sysrun.run_electric(case["plant"], inp, spec)
                         obs["runs"].append({"pin_set": pin_set, "res": outs, "rated": [float(o.rated_power) for o in objs],
                                             "first": s1, "after_queries": s2, "repeat": s3, "fresh": sysrun.snap(fres)})
                         held.append(res)
@@ -145,11 +149,13 @@ class P(Prop):
                         sysm.set_time_interval(np.array([float(x) for x in inp["dt"]]), IntegrationMethod.sum_with_time)
                         c4 = {"plant": case["plant"], "inp": inp}
                         o4 = self.snap_mech(sysm, objs, case["plant"], inp)
-                        res = sysm.get_fuel_energy_consumption_running_time()
+                        from feems.fuel import FuelSpecifiedBy
+                        spec = (case.get("specs") or ["IMO"] * len(case["runs"]))[k]
+                        res = sysm.get_fuel_energy_consumption_running_time(fuel_specified_by=FuelSpecifiedBy[spec])
                         s1 = sysrun.snap(res)
                         self.do_queries(res, case["queries"][k])
                         s2 = sysrun.snap(res)
-                        _, _, fres = sysrun.run_mechanical(case["plant"], inp)
+                        _, _, fres = sysrun.run_mechanical(case["plant"], inp, spec)
                         obs["runs"].append({"c4": o4, "first": s1, "after_queries": s2, "fresh": sysrun.snap(fres)})
                         held.append(res)
                     self.combine_held(held, obs)
@@ -182,6 +188,10 @@ class P(Prop):
                         obs["runs"].append({"first": s1, "fresh": s2})
         except InputError as e:
             return {"rejected": str(e)[:80]}
+        except ValueError as e:
+            if "not available for COGAS" in str(e):      # FuelEU factors requested for a plant with a COGES: refused by the implementation
+                return {"rejected": str(e)[:80]}
+            raise
         return obs
 
     @staticmethod
@@ -261,6 +271,8 @@ class P(Prop):
             t.append("series-length-changes")
         if "rejected" in obs:
             t.append("rejected")
+        if len(set(case.get("specs") or [])) > 1:
+            t.append("fuel-specification-changes-between-calculations")
         for q in case.get("queries", []):
             for x in q:
                 t.append("query:" + x)
